@@ -1,0 +1,98 @@
+//go:build verif
+
+// Exported pass-throughs used by the external verification harness. This file
+// is compiled only with the build tag "verif"; it adds no behaviour.
+
+package statefulset
+
+import (
+	kubeapps "k8s.io/api/apps/v1"
+	v1 "k8s.io/api/core/v1"
+	"k8s.io/client-go/util/workqueue"
+
+	apps "github.com/pingcap/advanced-statefulset/client/apis/apps/v1"
+)
+
+// VerifSync runs one reconcile of key exactly as a worker would.
+func (ssc *StatefulSetController) VerifSync(key string) error { return ssc.sync(key) }
+
+// VerifProcessNext runs processNextWorkItem once.
+func (ssc *StatefulSetController) VerifProcessNext() bool { return ssc.processNextWorkItem() }
+
+// VerifQueue exposes the work queue.
+func (ssc *StatefulSetController) VerifQueue() workqueue.RateLimitingInterface { return ssc.queue }
+
+// VerifAddPod, VerifUpdatePod, VerifDeletePod and VerifEnqueue expose the informer event handlers.
+func (ssc *StatefulSetController) VerifAddPod(obj interface{})         { ssc.addPod(obj) }
+func (ssc *StatefulSetController) VerifUpdatePod(old, cur interface{}) { ssc.updatePod(old, cur) }
+func (ssc *StatefulSetController) VerifDeletePod(obj interface{})      { ssc.deletePod(obj) }
+func (ssc *StatefulSetController) VerifEnqueue(obj interface{})        { ssc.enqueueStatefulSet(obj) }
+
+// VerifGetParentNameAndOrdinal exposes getParentNameAndOrdinal.
+func VerifGetParentNameAndOrdinal(pod *v1.Pod) (string, int) { return getParentNameAndOrdinal(pod) }
+
+// VerifGetPodName exposes getPodName.
+func VerifGetPodName(set *apps.StatefulSet, ordinal int) string { return getPodName(set, ordinal) }
+
+// VerifGetPersistentVolumeClaimName exposes getPersistentVolumeClaimName.
+func VerifGetPersistentVolumeClaimName(set *apps.StatefulSet, claim *v1.PersistentVolumeClaim, ordinal int) string {
+	return getPersistentVolumeClaimName(set, claim, ordinal)
+}
+
+// VerifNewVersionedStatefulSetPod exposes newVersionedStatefulSetPod.
+func VerifNewVersionedStatefulSetPod(currentSet, updateSet *apps.StatefulSet, currentRevision, updateRevision string, ordinal int) *v1.Pod {
+	return newVersionedStatefulSetPod(currentSet, updateSet, currentRevision, updateRevision, ordinal)
+}
+
+// VerifNewStatefulSetPod exposes newStatefulSetPod.
+func VerifNewStatefulSetPod(set *apps.StatefulSet, ordinal int) *v1.Pod {
+	return newStatefulSetPod(set, ordinal)
+}
+
+// VerifGetPatch exposes getPatch.
+func VerifGetPatch(set *apps.StatefulSet) ([]byte, error) { return getPatch(set) }
+
+// VerifNewRevision exposes newRevision.
+func VerifNewRevision(set *apps.StatefulSet, revision int64, collisionCount *int32) (*kubeapps.ControllerRevision, error) {
+	return newRevision(set, revision, collisionCount)
+}
+
+// VerifHashControllerRevision exposes hashControllerRevision.
+func VerifHashControllerRevision(revision *kubeapps.ControllerRevision, probe *int32) string {
+	return hashControllerRevision(revision, probe)
+}
+
+// VerifControllerRevisionName exposes controllerRevisionName.
+func VerifControllerRevisionName(prefix, hash string) string {
+	return controllerRevisionName(prefix, hash)
+}
+
+// VerifInconsistentStatus exposes inconsistentStatus.
+func VerifInconsistentStatus(set *apps.StatefulSet, status *apps.StatefulSetStatus) bool {
+	return inconsistentStatus(set, status)
+}
+
+// VerifCompleteRollingUpdate exposes completeRollingUpdate.
+func VerifCompleteRollingUpdate(set *apps.StatefulSet, status *apps.StatefulSetStatus) {
+	completeRollingUpdate(set, status)
+}
+
+// Health and identity predicates.
+func VerifIsRunningAndReady(pod *v1.Pod) bool { return isRunningAndReady(pod) }
+func VerifIsCreated(pod *v1.Pod) bool         { return isCreated(pod) }
+func VerifIsFailed(pod *v1.Pod) bool          { return isFailed(pod) }
+func VerifIsSucceeded(pod *v1.Pod) bool       { return isSucceeded(pod) }
+func VerifIsTerminating(pod *v1.Pod) bool     { return isTerminating(pod) }
+func VerifIsHealthy(pod *v1.Pod) bool         { return isHealthy(pod) }
+func VerifIsMemberOf(set *apps.StatefulSet, pod *v1.Pod) bool {
+	return isMemberOf(set, pod)
+}
+func VerifIdentityMatches(set *apps.StatefulSet, pod *v1.Pod) bool {
+	return identityMatches(set, pod)
+}
+func VerifStorageMatches(set *apps.StatefulSet, pod *v1.Pod) bool {
+	return storageMatches(set, pod)
+}
+
+// VerifNewRealStatefulPodControl is NewRealStatefulPodControl (already exported); kept for symmetry.
+var VerifNewRealStatefulPodControl = NewRealStatefulPodControl
